@@ -18,7 +18,8 @@ inductive Tok where
   | iflt (loc : String) (k : Nat) | ifeq (loc : String) (k : Nat) | ifpos (loc : String)
   | ifrdpos | ifavail | iff (c : String)
   | el | en | lp (c : String) | so | sc | fr (e : String) | pn | ret
-  | asg (f ty e : String) | asgn (f ty : String) (v : Int) | call (e : String) | raw (s : String)
+  | asg (f ty e : String) | asgn (f ty : String) (v : Int) | asgop (f ty op e : String)   -- this.f op= e
+  | call (e : String) | raw (s : String)
 deriving DecidableEq, Repr
 
 end Step
